@@ -33,7 +33,8 @@ def parseConfig (j : Json) : Option (Config × List (Bytes × Bytes)) := do
       (sb name, match fs with
         | .arr a => a.toList.map fun f =>
           { name := sb (strField f "name"), repeated := boolField f "repeated",
-            message := if strField f "message" == "" then none else some (sb (strField f "message")) }
+            message := if strField f "message" == "" then none else some (sb (strField f "message")),
+            isMap := boolField f "isMap" }
         | _ => [])
     | _ => []
   let services : List ServiceD := (arrField sj "services").toList.map fun s =>
